@@ -75,6 +75,7 @@ func (dw Writer) Write(p []byte) (n int, err error) {
 	// p is pooled in zerolog so we can't hold it passed this call, hence the
 	// copy.
 	p = append(bufPool.Get().([]byte), p...)
+	diodes.VerifAt("diode.write.copied", uint64(len(p)))
 	dw.d.Set(diodes.GenericDataType(&p))
 	return len(p), nil
 }
@@ -83,7 +84,9 @@ func (dw Writer) Write(p []byte) (n int, err error) {
 // io.Closer is implemented.
 func (dw Writer) Close() error {
 	dw.c()
+	diodes.VerifAt("diode.close.cancelled", 0)
 	<-dw.done
+	diodes.VerifAt("diode.close.joined", 0)
 	if w, ok := dw.w.(io.Closer); ok {
 		return w.Close()
 	}
@@ -98,7 +101,9 @@ func (dw Writer) poll() {
 			return
 		}
 		p := *(*[]byte)(d)
+		diodes.VerifAt("diode.poll.got", uint64(len(p)))
 		dw.w.Write(p)
+		diodes.VerifAt("diode.poll.written", uint64(len(p)))
 
 		// Proper usage of a sync.Pool requires each entry to have approximately
 		// the same memory cost. To obtain this property when the stored type
